@@ -203,6 +203,24 @@ pub fn non_growing(p: &Program) -> bool {
     p.impls.iter().all(|im| im.wcs.iter().all(|w| w.args.iter().all(|a| matches!(a, Ty::Param(_)) || !a.has_param())))
 }
 
+/// no impl head applies a constructor to an impl parameter: answers of existential goals cannot grow
+/// beyond the types written in the program and the goal
+pub fn finite_answers(p: &Program) -> bool {
+    p.impls.iter().all(|im| im.head.args.iter().all(|a| matches!(a, Ty::Param(_)) || !a.has_param()))
+}
+
+/// no field type nests a type parameter inside two constructor applications (polymorphic recursion
+/// through fields makes auto-trait searches grow; with two such fields the search tree is exponential)
+pub fn non_growing_fields(p: &Program) -> bool {
+    fn param_depth(t: &Ty, d: usize) -> usize {
+        match t {
+            Ty::Param(_) => d,
+            t => t.args().iter().map(|x| param_depth(x, d + 1)).max().unwrap_or(0),
+        }
+    }
+    p.ctors.iter().all(|c| c.all_fields().all(|f| param_depth(f, 0) < 2))
+}
+
 pub fn gen_tref(t: &mut Tape, p: &Program, leaves: &[Ty], depth: usize, prefer_leaf_self: bool) -> TRef {
     // half of the time seed the predicate from an impl header (instantiating its parameters), so that
     // goals are satisfiable much more often than with independent random types
@@ -414,4 +432,112 @@ pub fn goal_traits_ok(g: &Goal, ntraits: usize) -> bool {
             Prefix::If(h) => h.iter().all(|h| hyp(h, ntraits)),
             _ => true,
         })
+}
+
+// ---------------------------------------------------------------- shape: dense coinductive cycles
+
+/// Few ground types, several coinductive traits: the atoms (trait, type) are wired into a
+/// dependency graph that is *constructed* to be cyclic — a ring through some atoms, chords between
+/// random atoms inserted at random where-clause positions, leaves that fail (an inductive trait
+/// without impl) or hold (a fact) — so that cycle members succeed or fail together and provisional
+/// results must be revised. Alternative impls for the same atom are added occasionally.
+pub fn gen_dense_coinductive(t: &mut Tape) -> Program {
+    let mut p = Program::default();
+    let nty = 1 + t.choose(3);
+    for name in NULLARY.iter().take(nty) {
+        p.ctors.push(new_ctor(name, 0));
+    }
+    let nco = 1 + t.choose(4);
+    for name in TRAITS.iter().take(nco) {
+        p.traits.push(new_trait(name, 0, TraitKind::Coinductive));
+    }
+    // inductive leaf traits: index nco = "never implemented", nco+1 = "implemented for everything"
+    p.traits.push(new_trait(TRAITS[nco], 0, TraitKind::Inductive));
+    let never = nco;
+    let always = if t.chance(50) {
+        p.traits.push(new_trait(TRAITS[nco + 1], 0, TraitKind::Inductive));
+        Some(nco + 1)
+    } else {
+        None
+    };
+    // coinductive atoms
+    let mut atoms: Vec<TRef> = vec![];
+    for tr in 0..nco {
+        for ty in 0..nty {
+            atoms.push(TRef { tr, args: vec![Ty::Adt(ty, vec![])] });
+        }
+    }
+    t.shuffle(&mut atoms);
+    let n = atoms.len().min(2 + t.choose(5));
+    atoms.truncate(n);
+    // ring through the first k atoms
+    let k = 1 + t.choose(n);
+    let mut bodies: Vec<Vec<TRef>> = vec![vec![]; n];
+    for i in 0..k {
+        bodies[i].push(atoms[(i + 1) % k].clone());
+    }
+    // atoms outside the ring depend on a ring member or are facts
+    for i in k..n {
+        if t.chance(75) {
+            let j = t.choose(n);
+            bodies[i].push(atoms[j].clone());
+        }
+    }
+    // chords and leaves at random positions
+    let nchords = t.choose(2 * n + 1);
+    for _ in 0..nchords {
+        let i = t.choose(n);
+        if bodies[i].len() >= 4 {
+            continue;
+        }
+        let target = match t.choose(8) {
+            0 => TRef { tr: never, args: vec![Ty::Adt(t.choose(nty), vec![])] },
+            1 if always.is_some() => TRef { tr: always.unwrap(), args: vec![Ty::Adt(t.choose(nty), vec![])] },
+            _ => atoms[t.choose(n)].clone(),
+        };
+        let pos = t.choose(bodies[i].len() + 1);
+        bodies[i].insert(pos, target);
+    }
+    for i in 0..n {
+        p.impls.push(ImplDef { nparams: 0, head: atoms[i].clone(), wcs: bodies[i].clone(), positive: true, values: vec![], upstream: false });
+    }
+    // alternative impls (a second way to prove an atom)
+    let nalt = t.choose(3);
+    for _ in 0..nalt {
+        let i = t.choose(n);
+        let nw = t.choose(3);
+        let wcs = (0..nw).map(|_| atoms[t.choose(n)].clone()).collect();
+        p.impls.push(ImplDef { nparams: 0, head: atoms[i].clone(), wcs, positive: true, values: vec![], upstream: false });
+    }
+    if let Some(a) = always {
+        p.impls.push(ImplDef { nparams: 1, head: TRef { tr: a, args: vec![Ty::Param(0)] }, wcs: vec![], positive: true, values: vec![], upstream: false });
+    }
+    t.shuffle(&mut p.impls);
+    p
+}
+
+/// closed goals over a dense coinductive program: ground predicates, conjunctions, `not`
+pub fn gen_dense_goal(t: &mut Tape, p: &Program) -> Goal {
+    let atom = |t: &mut Tape| -> TRef {
+        let ground: Vec<&ImplDef> = p.impls.iter().filter(|im| im.nparams == 0).collect();
+        if !ground.is_empty() && t.chance(70) {
+            ground[t.choose(ground.len())].head.clone()
+        } else {
+            let c = t.choose(p.ctors.len());
+            let ty = if p.ctors[c].arity == 0 { Ty::Adt(c, vec![]) } else { Ty::Adt(c, vec![Ty::Adt(0, vec![])]) };
+            TRef { tr: t.choose(p.traits.len()), args: vec![ty] }
+        }
+    };
+    let n = 1 + t.choose(3);
+    let body = (0..n)
+        .map(|_| {
+            let a = atom(t);
+            if t.chance(25) {
+                Lit::Not(Box::new(Lit::Holds(a)))
+            } else {
+                Lit::Holds(a)
+            }
+        })
+        .collect();
+    Goal { prefix: vec![], body }
 }
